@@ -18,7 +18,7 @@ RULE = (
     "one case per (expression token sequence, spacing); systematic: all ordered pairs and triples of the 7 binary operators over "
     "3 operand tuples with every single-level parenthesisation, all unary/binary adjacencies, literal bases/cases at boundary "
     "magnitudes; random trees; each run through eval_expression_str, the operand contexts (lda.w #E, lda.w E, unsuffixed dec E / rol E) and, when all its "
-    "operators are lexable there, the directive contexts (.dl, :=, =, macro argument, .if, .for bound when the value is small); distinct by hash of the rendered text; "
+    "operators are lexable there, the directive contexts (.dl, :=, =, macro argument, .if, .for bound when the value is small, a loop whose other iterations expand to nothing, bare blocks / parameterless macro applications / an empty named scope around it); distinct by hash of the rendered text; "
     "non-trivial = the reference defines a value and at least one operator is present"
 )
 ASSUMPTIONS = [
@@ -232,7 +232,7 @@ def contexts_for(tokens, value: int | None = None) -> list[str]:
         if value is not None and 0 <= value < 0x10000:
             ctx.append("rmw")       # unsuffixed read-modify-write operand: width follows the value
     if lexable_in_directive(tokens):
-        ctx += ["dl", "assign", "symbol", "macro", "if", "loop_body", "macro_body_twice"]
+        ctx += ["dl", "assign", "symbol", "macro", "if", "loop_body", "macro_body_twice", "sparse_loop", "hollow_scopes"]
         if value is not None and -2 <= value <= 6:
             ctx.append("for")       # loop bound: the body is assembled max(0, value) times
         if value is not None and 0 <= value < 0x100:
@@ -261,6 +261,12 @@ def program_for(ctx: str, text: str) -> str:
         return head + f".for zi := 0, 3 {{\n.dl {text}\n}}\n"
     if ctx == "macro_body_twice":
         return head + f".macro mb() {{\n.dl {text}\nlda.w #{text}\n}}\nmb()\nmb()\n"
+    if ctx == "sparse_loop":
+        # iterations that expand to nothing stand between the ones that use the expression
+        return head + f".for zi := 0, 6 {{\n.if zi & 1 {{\n.dl ({text}) + zi\n}}\n}}\n.macro ms(zp) {{\n.dl ({text}) + zp\n}}\nms(7)\n"
+    if ctx == "hollow_scopes":
+        # scopes that define nothing (bare blocks, an application of a macro without parameters, an empty named scope) around the expression
+        return head + f".macro mh() {{\n.dl {text}\n}}\n{{\n{{\n.dl {text}\n{{\nmh()\n}}\n}}\n}}\n.scope hollow {{\n{{\n.dl {text}\n}}\nmh()\n}}\n"
     if ctx == "if":
         return head + f".if {text} {{\n.db 1\n}} else {{\n.db 0\n}}\n"
     if ctx == "shadow":
@@ -277,6 +283,10 @@ def expected_bytes(ctx: str, v: int) -> bytes:
         return b"\xad" + le(v, 2)
     if ctx == "rmw":
         return (b"\xc6" + le(v, 1) + b"\x26" + le(v, 1)) if v < 0x100 else (b"\xce" + le(v, 2) + b"\x2e" + le(v, 2))
+    if ctx == "sparse_loop":
+        return le(v + 1, 3) + le(v + 3, 3) + le(v + 5, 3) + le(v + 7, 3)
+    if ctx == "hollow_scopes":
+        return le(v, 3) * 4
     if ctx == "if":
         return b"\x01" if v != 0 else b"\x00"
     if ctx == "shadow":
